@@ -115,6 +115,9 @@ def gen_param_design(rng, odd=False):
       a = {"kind": "struct_value", "name": "SVal", "fields": [["a", 4], ["b", 8]], "v": [1, 2]}
       b = {"kind": "struct_value", "name": "SVal", "fields": [["a", 4], ["b", 8]], "v": [rng.choice([1, 3]), rng.choice([4, 2])]}
       if b["v"] == a["v"]: b["v"] = [3, 4]
+      if rng.random() < 0.5:
+        # ... or instances of two struct TYPES whose values print alike (field widths 8 / 5: two hex digits each)
+        b = {"kind": "struct_value", "name": "SVal", "fields": [["a", 4], ["b", 5]], "v": list(a["v"])}
     if rng.random() < 0.35:
       # parameter values that differ but HASH alike in CPython: hash(-1) == hash(-2)
       a, b = {"kind": "int", "v": -1}, {"kind": "int", "v": -2}
